@@ -23,6 +23,10 @@ pub fn set_sim_thread(on: bool) {
     SIM_THREAD.with(|s| s.set(on));
 }
 
+pub fn is_sim_thread() -> bool {
+    SIM_THREAD.try_with(|s| s.get()).unwrap_or(false)
+}
+
 /// Advance simulated time by `ms` milliseconds.
 pub fn jump_ms(ms: u64) {
     OFFSET_NS.fetch_add((ms as i64).saturating_mul(1_000_000), Ordering::SeqCst);
